@@ -509,6 +509,89 @@ def gen_huge(rng, n, mem_mb):
     return out
 
 
+# ---- 9b. the SIZE of big integers at every site that prints a number -------------------------------------------------
+
+BIG_BITS = [1000, 4000, 4095, 4096, 4097, 8000, 13000, 14284, 14285, 14286, 14287, 15000, 16383, 16384, 16385, 20000, 40000]
+DECIMAL_LENGTHS = [4299, 4300, 4301, 4302, 5000]
+
+
+def gen_bigint(rng, n):
+    """every diagnostic that shows a number, with numbers of every bit length around the points where the representation
+    (decimal / hex) or python's int<->str limit (4300 digits = 14285 bits) changes"""
+    sites = [   # (hint, template with {N} = the big number, needs a multiple of w)
+        ('parser fold error', ';{N}/0', False), ('parser fold error (shift)', ';1<<(0-{N})', False),
+        ('eval_new error', 'def m a {{\n;({N}+a)/(a-a)\n}}\nm 3', False),
+        ('exact_eval error', ';(x+{N})/0\nx:', False), ('unknown label next to it', ';x+{N}', False),
+        ('label / constant collision', 'x = {N}\nx:', False), ('parameter / constant collision', 'x = {N}\ndef m x {{\n;x\n}}\nm 1', False),
+        ('constant redeclared', 'x = {N}\nx = 3', False), ('label swapped to a number', 'def m a {{\na:\n;\n}}\nm {N}', False),
+        ('pad not positive', ';\npad 0-{N}', False), ('pad too big', ';\npad {N}', False),
+        ('pad evaluation error', ';\npad {N}/(x-x)\nx:', False), ('pad with unknown label', ';\npad {N}+x', False),
+        ('pad after a reserve of that size', ';\nreserve {N}\npad 2', True),
+        ('unaligned pad after a reserve of that size', ';\nreserve {N}+w\npad 2', True),
+        ('negative reserve', ';\nreserve 0-{N}', False), ('unaligned reserve', ';\nreserve {N}+1', True),
+        ('aligned reserve', ';\nreserve {N}', True), ('unaligned segment', ';\nsegment {N}+1\n;', True),
+        ('aligned segment', ';\nsegment {N}\n;', True), ('negative segment', ';\nsegment 0-{N}\n;', True),
+        ('wflip area pushed out (add_data word)', 'wflip 0, 3\nreserve 2*w\n;\nreserve {N}', True),
+        ('flip word', '{N};', False), ('jump word', ';{N}', False), ('negative jump word', ';0-{N}', False),
+        ('wflip value', 'wflip 0, {N}', False), ('wflip address', 'wflip {N}, 1', False), ('wflip return', 'wflip 0, 1, {N}', False),
+        ('rep times (negative)', 'def m {{\n;\n}}\n;\nrep(0-{N}, i) m', False), ('rep argument error', 'def m a {{\n;a\n}}\nrep(2, i) m {N}/i', False),
+        ('macro argument of an undefined macro', 'nope {N}', False), ('recursion trace', 'def m a {{\nm a\n}}\nm {N}', False),
+    ]
+    bits = BIG_BITS + [rng.randrange(900, 45000) for _ in range(3)]
+    out = []
+    k = 0
+    while len(out) < n:
+        hint, tpl, aligned = sites[k % len(sites)]
+        b = bits[(k // len(sites)) % len(bits)]
+        form = (k // (len(sites) * len(bits))) % 3
+        k += 1
+        if form == 0 or aligned:
+            num = f'(1<<{b - 1})'
+        elif form == 1:
+            num = f'((1<<{b})-1)'
+        else:
+            num = hex(rng.getrandbits(b) | (1 << (b - 1)))
+        out.append(case('bigint', tpl.format(N=num) + '\n', f'{hint}, {b} bits'))
+    for ln in DECIMAL_LENGTHS:
+        for d in ('9', '1'):
+            out.append(case('bigint', ';' + d * ln + '\n', f'decimal literal of {ln} digits'))
+            out.append(case('bigint', ';x+' + d * ln + '\n', f'decimal literal of {ln} digits next to an unknown label'))
+            out.append(case('bigint', ';\npad 0-' + d * ln + '\n', f'decimal literal of {ln} digits as a negative pad'))
+    return out
+
+
+# ---- 9c. pad / reserve / segment / wflip interleavings inside one segment ---------------------------------------------
+
+def gen_interleave(rng, n):
+    """short primitive programs that mix padding holes, reserves, new segments and multi-bit wflips in every order (the
+    bookkeeping BinaryData shares between them: pad-hole indices, word lists, the wflip area), valid more often than not"""
+    out = []
+    for i in range(n):
+        w = WIDTHS[i % 4]
+        v = VERSIONS[(i // 4) % 4]
+        lines = [rng.choice([';0', ';x', ';'])]
+        seg = 1
+        for _ in range(rng.randrange(2, 9)):
+            r = rng.random()
+            if r < 0.25:
+                lines.append(f'pad {rng.choice([2, 4, 4, 8])}')
+            elif r < 0.45:
+                lines.append(f'reserve {rng.choice([2, 2, 4, 6])}*w' + ('' if rng.random() < 0.9 else '+w'))
+            elif r < 0.75:
+                val = rng.choice([3, 5, 7, 15, 6, 255, 1, 0]) & ((1 << w) - 1)
+                tgt = rng.choice(['x', 'x+w', 't', '0'])
+                ret = rng.choice(['', '', ', x', ', t'])
+                lines.append(f'wflip {tgt}, {val}{ret}')
+            elif r < 0.85 and w > 8:
+                lines.append(f'segment {seg * 64}*w')
+                seg += 1
+            else:
+                lines.append(rng.choice([';0', ';x', ';t', ';$']))
+        lines += ['x:', ';0', 't:', ';0']
+        out.append(case('interleave', '\n'.join(lines) + '\n', 'pad / reserve / segment / wflip interleaving', w=w, v=v))
+    return out
+
+
 # ---- 10. valid programs (mutation corpus) ----------------------------------------------------------------------------
 
 NOSTL_SAMPLES = [
